@@ -44,11 +44,22 @@ func (x *fx) envAt(st *State, at *ssa.BasicBlock, override map[*ssa.Phi]Term, at
 		for _, in := range x.loopOrd[n].header.Instrs {
 			if nx, ok := in.(*ssa.Next); ok {
 				if rg, ok := nx.Iter.(*ssa.Range); ok {
-					if rec := x.ranges[rg]; rec != nil {
-						if t, ok := st.ghost[rec.ghost]; ok {
-							return TV{t, &setTy{rec.mapT.Underlying().(*types.Map).Key()}}, true
-						}
+					mt, isMap := rg.X.Type().Underlying().(*types.Map)
+					if !isMap {
+						continue
 					}
+					kt := mt.Key()
+					g := "seen:" + rg.Name()
+					if t, ok := st.ghost[g]; ok {
+						return TV{t, &setTy{kt}}, true
+					}
+					// the range has not started on this path (a nested loop named by an outer invariant): unconstrained
+					t, have := x.e.ghostEntry[g]
+					if !have {
+						t = x.e.declare("seen0", "(Array "+x.e.S.sortOf(kt)+" Bool)")
+						x.e.ghostEntry[g] = t
+					}
+					return TV{t, &setTy{kt}}, true
 				}
 			}
 		}
